@@ -90,7 +90,7 @@ func init() { replayFuncs["C12"] = replayHistoryC12 }
 // ---------------------------------------------------------------------------------------------
 // golden corpus
 
-const goldenDir = "/verif/golden"
+var goldenDir = verifRoot() + "/golden"
 
 func canonicalText(b *model.Bucket) string { return strings.Join(model.Canonical(b), "\n") + "\n" }
 
